@@ -87,19 +87,36 @@ def sequential_outcomes(w, init, program):
     return outs
 
 
-def run_schedule(ps, w, init, program, bound, allowed, pinned=None):
+FAULTV = z3.Int("conc_fault_at")
+
+
+def run_schedule(ps, w, init, program, bound, allowed, pinned=None, with_fault=False, pinned_fault=None):
     F = build_pinned(ps, w, init)
     s = w.store()
     sched.reset_primitives(s)
     sc = sched.Sched(ps, bound, pinned)
     sched.CUR[0] = sc
     F.on_point = sc.point
+    fault = dict(hit=None)
+    if with_fault:
+        import errno as _errno
+
+        def inj(idx, kind, path):
+            if fault["hit"] is None:
+                fire = (idx == pinned_fault) if pinned_fault is not None else ps.decide(FAULTV == idx)
+                if fire:
+                    fault["hit"] = (idx, kind, path)
+                    raise OSError(_errno.EIO, "Input/output error (injected)", path)
+        F.injector = inj
     ts = [sc.spawn(lambda c=c: summ(c.run(w, s)), c.label) for c in program]
     try:
         status = sc.run()
     finally:
         sched.CUR[0] = None
         F.on_point = None
+        F.injector = None
+    if with_fault and fault["hit"] is None and pinned_fault is None:
+        ps.constrain(FAULTV >= F.nops)
     res = tuple(norm(c, ("ok", t.res[1]) if t.res and t.res[0] == "ok" else ("exc", t.res[1] if t.res else "none"))
                 for c, t in zip(program, ts))
     bad = []
@@ -109,7 +126,7 @@ def run_schedule(ps, w, init, program, bound, allowed, pinned=None):
         state = None
     else:
         state = w.concrete_state()
-        if (res, state) not in allowed:
+        if not with_fault and (res, state) not in allowed:
             same_res = [k for k in allowed if k[0] == res]
             why = "results match a sequential order but the final state does not" if same_res else \
                 "no sequential order (nor the in-progress rejection) produces these results"
@@ -135,24 +152,27 @@ def run_schedule(ps, w, init, program, bound, allowed, pinned=None):
                 except Exception:   # noqa
                     pass
     rec = dict(res=res, status=status, bad=bad, log=list(sc.log), steps=len(sc.log), points=sc.points,
-               preemptions=sc.preempt)
+               preemptions=sc.preempt, fault=fault["hit"])
     return rec
 
 
-def explore_scenarios(w_args, scenarios_fn, bound, procs=None, mp=False):
+def explore_scenarios(w_args, scenarios_fn, bound, procs=None, mp=False, with_fault=False):
     """scenarios_fn(world) -> list of (name, init dict, [calls]).  One worker per scenario."""
     # multiprocessing mode: each scheduled thread stands for a forked process, so threading primitives are process-local
     a = dict(w_args, threading_mod=sched.fthreading_proclocal if mp else sched.fthreading,
              multiprocessing_mod=sched.fmultiprocessing, sym_dirs=False, mp=mp)
     w0 = World(**a)
     names = [sc[0] for sc in scenarios_fn(w0)]
+    NSPLIT = 8 if with_fault else 1      # a faulted scenario is split over workers by the residue of the fault index
 
-    def worker(k):
+    def worker(job):
+        k, part = job
         w = World(**a)
         name, init, program = scenarios_fn(w)[k]
-        allowed = sequential_outcomes(w, init, program)
-        ps = PathSym(w.inv())
-        recs = ps.explore(lambda p: run_schedule(p, w, init, program, bound, allowed))
+        allowed = sequential_outcomes(w, init, program) if not with_fault else {}
+        tsp = z3.Int("fault_split")
+        ps = PathSym(w.inv() + ([FAULTV >= 0, tsp >= 0, FAULTV == part + NSPLIT * tsp] if with_fault else []))
+        recs = ps.explore(lambda p: run_schedule(p, w, init, program, bound, allowed, with_fault=with_fault))
         w.cleanup()
         st = ps.st.as_dict()
         bad = {}
@@ -160,28 +180,51 @@ def explore_scenarios(w_args, scenarios_fn, bound, procs=None, mp=False):
             for b in r["bad"]:
                 key = (b[0], str(b[1:])[:300])
                 if key not in bad:
-                    bad[key] = dict(count=0, log=r["log"], res=r["res"], preemptions=r["preemptions"], detail=b[1:])
+                    bad[key] = dict(count=0, log=r["log"], res=r["res"], preemptions=r["preemptions"], detail=b[1:],
+                                    fault=r.get("fault"))
                 bad[key]["count"] += 1
         return dict(name=name, k=k, schedules=len(recs), stats=st, bad=bad, labels=[c.label for c in program],
                     nseq=len(allowed), max_steps=max([r["steps"] for r in recs] or [0]),
                     outcomes=sorted(set(str(r["res"]) for r in recs))[:6])
-    return par_explore(worker, list(range(len(names))), procs)
+    outs = par_explore(worker, [(k, part) for k in range(len(names)) for part in range(NSPLIT)], procs)
+    if NSPLIT == 1:
+        return outs
+    merged = {}
+    for o in outs:
+        m = merged.get(o["k"])
+        if m is None:
+            merged[o["k"]] = o
+            continue
+        m["schedules"] += o["schedules"]
+        for kk in ("paths", "solver_queries", "validity_queries", "solver_s", "infeasible_prefixes"):
+            m["stats"][kk] = m["stats"].get(kk, 0) + o["stats"].get(kk, 0)
+        m["stats"]["exhausted"] = m["stats"].get("exhausted", True) and o["stats"].get("exhausted", True)
+        for key, b in o["bad"].items():
+            if key in m["bad"]:
+                m["bad"][key]["count"] += b["count"]
+            else:
+                m["bad"][key] = b
+        m["max_steps"] = max(m["max_steps"], o["max_steps"])
+    return [merged[k] for k in sorted(merged)]
 
 
-def replay_schedule(w_args, scenarios_fn, k, log, bound, want_prefix, mp=False):
+def replay_schedule(w_args, scenarios_fn, k, log, bound, want_prefix, mp=False, fault_at=None):
     a = dict(w_args, threading_mod=sched.fthreading_proclocal if mp else sched.fthreading,
              multiprocessing_mod=sched.fmultiprocessing, sym_dirs=False, mode="passthrough", mp=mp)
     w = World(**a)
     try:
         name, init, program = scenarios_fn(w)[k]
         # sequential outcomes on the real file system too
-        allowed = sequential_outcomes(w, init, program)
+        allowed = sequential_outcomes(w, init, program) if fault_at is None else {}
         ps = PathSym(w.inv())
         ps.begin()
-        rec = run_schedule(ps, w, init, program, bound, allowed, pinned=list(log))
+        rec = run_schedule(ps, w, init, program, bound, allowed, pinned=list(log), with_fault=fault_at is not None,
+                           pinned_fault=fault_at)
         hit = [b for b in rec["bad"] if b[0].startswith(want_prefix)]
         return bool(hit), ("passthrough replay on the real file system: scenario %s, calls %s in real threads under "
-                           "the recorded schedule %s -> results %s; failing: %s" % (
-                               name, [c.label for c in program], "".join(map(str, log)), rec["res"], rec["bad"]))
+                           "the recorded schedule %s%s -> results %s; failing: %s" % (
+                               name, [c.label for c in program], "".join(map(str, log)),
+                               "" if fault_at is None else " with EIO injected at file-system operation %d" % fault_at,
+                               rec["res"], rec["bad"]))
     finally:
         w.cleanup()
